@@ -165,3 +165,177 @@ pub fn peers(o: &Opts) -> Res<()> {
     eprintln!("vh peers: {} behaviours, {} trace lines", behs.len(), n);
     Ok(())
 }
+
+// ------------------------------------------------------------------------------------ table
+
+const NONE_T: i64 = -2_000_000_000;
+
+/// Id specifications in behaviours: a number (model id of `bits` bits: these are the leading bits, the
+/// rest is zero), a string of '0'/'1' (leading bits, rest zero), or "x<40 hex digits>".
+pub fn id_of(v: &Value, bits: u32) -> [u8; 20] {
+    let mut id = [0u8; 20];
+    let mut set_bits = |s: &str| {
+        for (i, ch) in s.chars().enumerate().take(160) {
+            if ch == '1' {
+                id[i / 8] |= 1 << (7 - (i % 8));
+            }
+        }
+    };
+    match v {
+        Value::Number(n) => {
+            let n = n.as_u64().unwrap_or(0);
+            let s: String = (0..bits).map(|i| if (n >> (bits - 1 - i)) & 1 == 1 { '1' } else { '0' }).collect();
+            set_bits(&s);
+        }
+        Value::String(s) if s.starts_with('x') => {
+            for i in 0..20 {
+                id[i] = u8::from_str_radix(s.get(1 + 2 * i..3 + 2 * i).unwrap_or("00"), 16).unwrap_or(0);
+            }
+        }
+        Value::String(s) => set_bits(s),
+        _ => {}
+    }
+    id
+}
+
+fn slot_json(s: &verif::SlotDump, base: i64) -> Value {
+    if s.last_response.is_none() {
+        return json!({"e": 1});
+    }
+    let rel = |t: Option<i64>| t.map(|t| t - base).unwrap_or(NONE_T);
+    json!({"id": bytes_json(&s.id), "addr": addr_json(&s.addr), "rsp": rel(s.last_response),
+           "req": rel(s.last_request), "loc": rel(s.last_local_request), "cnt": s.refresh_requests, "st": s.status})
+}
+
+/// The buckets that differ from the previous dump: [nb, [[index(1-based), slots], ...]]
+fn table_diff(prev: &mut Vec<Vec<verif::SlotDump>>, cur: Vec<Vec<verif::SlotDump>>, base: i64) -> Value {
+    let mut ch = Vec::new();
+    for (i, b) in cur.iter().enumerate() {
+        if prev.get(i) != Some(b) {
+            ch.push(json!([i + 1, b.iter().map(|s| slot_json(s, base)).collect::<Vec<_>>()]));
+        }
+    }
+    let v = json!([cur.len(), ch]);
+    *prev = cur;
+    v
+}
+
+/// Routing table behaviours: ops reset{self,routers,bits} | adv{d} | good{id,addr} | quest{id,addr} |
+/// local{id,addr} | remote{id,addr} | closest{target} | contacts.  `--probe 1` adds a Closest probe for the
+/// id of every operation and a Contacts read-back after every operation, and a sweep of targets at the end.
+pub fn table(o: &Opts) -> Res<()> {
+    let behs = read_lines(o.req("in")?)?;
+    let mut out = TraceOut::create(o.req("out")?)?;
+    // probe levels: 0 none; 1 = a sweep of targets at the end of each behaviour; 2 = additionally a Closest probe
+    // for the id of every operation and a Contacts read-back after every operation
+    let probe_lvl = o.num("probe", 1);
+    let rt = paused_rt();
+    rt.block_on(async {
+        verif::set_epoch();
+        for beh in &behs {
+            let ops = ops_of(beh);
+            let base = verif::now_ms();
+            let now = || verif::now_ms() - base;
+            let mut bits = 4u32;
+            let mut self_id = id_of(&json!("0101"), 4);
+            let mut routers: Vec<String> = vec![];
+            let mut start = 0;
+            if let Some(first) = ops.first() {
+                if first["op"] == "reset" {
+                    bits = first["bits"].as_u64().unwrap_or(4) as u32;
+                    self_id = id_of(&first["self"], bits);
+                    routers = first["routers"].as_array().map(|a| a.iter().filter_map(|x| x.as_str().map(String::from)).collect()).unwrap_or_default();
+                    start = 1;
+                }
+            } else {
+                continue;
+            }
+            if let Some(m) = beh.get("meta") {
+                bits = m["bits"].as_u64().unwrap_or(bits as u64) as u32;
+                self_id = id_of(&m["self"], bits);
+                routers = m["routers"].as_array().map(|a| a.iter().filter_map(|x| x.as_str().map(String::from)).collect()).unwrap_or_default();
+            }
+            let mut table = verif::Table::new(self_id);
+            table.set_routers(routers.iter().map(|r| addr_of(r)).collect());
+            out.put(json!({"ev":"Reset","t":now(),"self":bytes_json(&self_id),
+                           "routers": routers.iter().map(|r| addr_json(&addr_of(r))).collect::<Vec<_>>()}));
+            let mut prev = table.dump();
+            let mut seen: Vec<[u8; 20]> = vec![];
+            let closest = |table: &verif::Table, out: &mut TraceOut, target: [u8; 20], t: i64| {
+                let got: Vec<Value> = table.closest(target).iter().map(|s| json!({"id": bytes_json(&s.id), "addr": addr_json(&s.addr)})).collect();
+                out.put(json!({"ev":"Closest","t":t,"target":bytes_json(&target),"out":got}));
+            };
+            let contacts = |table: &verif::Table, out: &mut TraceOut, t: i64| {
+                let (g, q) = table.contacts();
+                let (ng, nq) = table.counts();
+                let mut g: Vec<_> = g.iter().collect();
+                let mut q: Vec<_> = q.iter().collect();
+                g.sort();
+                q.sort();
+                out.put(json!({"ev":"Contacts","t":t,"good":g.iter().map(|a| addr_json(a)).collect::<Vec<_>>(),
+                               "quest":q.iter().map(|a| addr_json(a)).collect::<Vec<_>>(),"ng":ng,"nq":nq}));
+            };
+            for op in &ops[start..] {
+                let kind = op["op"].as_str().unwrap_or("");
+                let id = id_of(&op["id"], bits);
+                let addr = addr_of(op["addr"].as_str().unwrap_or("a4:1"));
+                let mut mutating = true;
+                match kind {
+                    "adv" => advance_ms(op["d"].as_u64().unwrap_or(0)).await,
+                    "good" => table.offer_good(id, addr),
+                    "quest" => table.offer_questionable(id, addr),
+                    "local" => {
+                        table.mark_local(id, addr);
+                    }
+                    "remote" => {
+                        table.mark_remote(id, addr);
+                    }
+                    "closest" => {
+                        closest(&table, &mut out, id_of(&op["target"], bits), now());
+                        mutating = false;
+                    }
+                    "contacts" => {
+                        contacts(&table, &mut out, now());
+                        mutating = false;
+                    }
+                    _ => mutating = false,
+                }
+                if mutating {
+                    let ch = table_diff(&mut prev, table.dump(), base);
+                    let ev = match kind { "adv" => "Adv", "good" => "Good", "quest" => "Quest", "local" => "Local", _ => "Remote" };
+                    if kind == "adv" {
+                        out.put(json!({"ev":ev,"t":now(),"ch":ch}));
+                    } else {
+                        out.put(json!({"ev":ev,"t":now(),"id":bytes_json(&id),"addr":addr_json(&addr),"ch":ch}));
+                        if !seen.contains(&id) {
+                            seen.push(id);
+                        }
+                    }
+                    if probe_lvl >= 2 {
+                        if kind != "adv" {
+                            closest(&table, &mut out, id, now());
+                        }
+                        contacts(&table, &mut out, now());
+                    }
+                }
+            }
+            if probe_lvl >= 1 {
+                contacts(&table, &mut out, now());
+                let mut targets = vec![self_id];
+                let flips: &[usize] = if probe_lvl >= 2 { &[0, 1, 2, 3, 4, 5, 6, 7, 8, 20, 159] } else { &[0, 1, 2, 3] };
+                for &b in flips {
+                    let mut f = self_id;
+                    f[b / 8] ^= 1 << (7 - (b % 8));
+                    targets.push(f);
+                }
+                targets.extend(seen.iter().take(if probe_lvl >= 2 { 12 } else { 2 }).copied());
+                for tg in targets {
+                    closest(&table, &mut out, tg, now());
+                }
+            }
+        }
+    });
+    let n = out.finish();
+    eprintln!("vh table: {} behaviours, {} trace lines", behs.len(), n);
+    Ok(())
+}
